@@ -2,6 +2,7 @@
 over hash-consed tuples), loop recognition and crate-local call graph.  No library code is executed; everything
 here walks the JSON facts dumped by the opw-facts driver."""
 import re
+from . import fieldalias, desugar
 from functools import lru_cache
 
 
@@ -13,6 +14,8 @@ def short(path):
 class Program:
     def __init__(self, facts):
         self.facts = facts
+        self.field_aliases = fieldalias.apply(facts)
+        self.desugared = desugar.apply(facts)
         self.bodies = {}
         for b in facts['bodies']:
             self.bodies[b['path']] = Body(b, self)
@@ -645,6 +648,9 @@ class Body:
             if v is not None:
                 return v
         args = tuple(self.op_term(a, at) for a in t['args'])
+        if len(args) == 3 and cname(name) in ('f64::mul_add', 'f32::mul_add'):
+            # x.mul_add(y, z) is x * y + z (clippy's suboptimal_flops): the rules see the arithmetic, not the call
+            return ('bin', 'Add', ('bin', 'Mul', args[0], args[1]), args[2])
         return ('call', name) + args
 
     def _vec_literal(self, call_bb):
